@@ -595,6 +595,8 @@ class Path(PathDeprecations):
                     raise PathError(f"Path exists but no permission to access: {abs_path!r}") from ex
         elif not self._skip_check and not self._std_io:
             ptype = "Directory" if "d" in mode else "File"
+            if "\0" in abs_path:
+                raise PathError(f"{ptype} path with a null character: {abs_path!r}")  # (os functions raise ValueError for it)
             if "c" in mode:
                 pdir = os.path.realpath(os.path.join(abs_path, ".."))
                 if not os.path.isdir(pdir) and mode.count("c") == 2:
